@@ -193,9 +193,9 @@ PROPS['C09'].update({
                    'reaches its panic; evaluate(x) equals the denoted partial function tree_fn(root, x), undefinedness included. '
                    'The node stream under polyhedra() is DfsPre: its next / skip_subtree step contracts (unit tree_iter, see C13) are discharged here as well. PROVED for the generator itself (unit pwl_regions, binary trees): PolyhedraGen::next returns the DfsPre item and leaves in `predicates` exactly one half-space per edge of the path root -> node, in path order, '
                    'each being the parent predicate for label 1 and its closed complement (rows and bias negated) for label 0 - also after any number of skip_subtree calls (invariant gen_inv over a ghost path; stack entries hang below the path: anc_inv); '
-                   'lemma_route_in_region: an input routed through the node satisfies every reported half-space; lemma_interior_routed: an input strictly inside all of them is routed through the node; Tree::path_to_node (unit tree_path). '
-                   'BOUNDED (bc regions): the PolyhedraIter wrapper, disjoint interiors and coverage as statements about the whole stream (order, depth, sibling counters, path polytopes, all skip_subtree positions, single and repeated), interior points routed through '
-                   'their node, disjoint interiors, coverage of total trees.'),
+                   'lemma_route_in_region: an input routed through the node satisfies every reported half-space; lemma_interior_routed: an input strictly inside all of them is routed through the node; lemma_disjoint_interiors: no input lies strictly inside the regions reported for two distinct terminals (both paths would be routed for it, routed paths from the same start agree, and a terminal has no child); lemma_total_defined: in a tree without missing branches every input of the tree\'s dimension reaches a terminal (and by lemma_route_in_region lies in the region reported for it: cover); the node stream lists every node of the tree exactly once (lemma_pre_exact, unit tree_iter); Tree::path_to_node (unit tree_path). '
+                   'BOUNDED (bc regions): the PolyhedraIter wrapper and the statements above replayed on the whole stream of the compiled crate (order, depth, sibling counters, path polytopes, all skip_subtree positions, single and repeated, interior points routed through '
+                   'their node, disjoint interiors, coverage of total trees).'),
     'design_ref': 'DESIGN.md §4 C09',
     'assumptions': ASSUME_COMMON + ASSUME_SLAB + ASSUME_ND + ASSUME_PWL + ASSUME_BC + [
         'unit pwl_regions: PolyhedraGen::next is verified for K = 2 with two ghost arguments (the path of the previously returned node, a height map); its returned reference `&self.predicates` is dropped from the signature (the list is read from self.predicates / current_polytope()); `tree.node_value(i)` is read as tree.tree_node(i).value (rule N2); `&aff.mat * factor` is written Mul::mul(&aff.mat, factor) (rule O1); the literals 1.0 / -1.0 are flit helpers; the DfsPre contracts are taken over from unit tree_iter (//@assumed); traversal starts at the tree root',
